@@ -339,6 +339,14 @@ func c02Corrupt(c *vf.Ctx) {
 			if len(bad) > 0 {
 				c.Fail(sub, i, "store-holds-block-not-matching-its-cid:"+kind, fmt.Sprintf("%s: %v", phase, bad), wit())
 			}
+			// ... and nothing but blocks of the chain that was asked for: bytes that were refused are not kept
+			// under some other name either
+			for _, kc := range dst.Keys() {
+				if e.chain.Pos(kc) < 0 {
+					c.Fail(sub, i, "store-holds-content-that-was-never-requested:"+kind, fmt.Sprintf("%s: %s", phase, kc), wit())
+					break
+				}
+			}
 			for _, h := range hl.list() {
 				raw, ok := dst.Raw(h)
 				want, _ := e.pub.Raw(h)
@@ -728,6 +736,16 @@ func c02Branching(c *vf.Ctx) {
 			c.Add("audited_store_entries", int64(n))
 			if len(bad) > 0 {
 				c.Fail(sub, i, "store-holds-block-not-matching-its-cid:"+kind, fmt.Sprintf("%s: %v", phase, bad), wit())
+			}
+			for _, kc := range dst.Keys() {
+				known := false
+				for _, b := range reach {
+					known = known || b.Equals(kc)
+				}
+				if !known {
+					c.Fail(sub, i, "store-holds-content-that-was-never-requested:"+kind, fmt.Sprintf("%s: %s", phase, kc), wit())
+					break
+				}
 			}
 		}
 		c.Guard(sub, i, wit, func() {
